@@ -15,6 +15,7 @@
 package mysql
 
 import (
+	"errors"
 	"fmt"
 	"strconv"
 	"strings"
@@ -229,12 +230,24 @@ func (s *SessionVariables) GetUnusedAndClear() map[string]*Variable {
 	return unused
 }
 
-// Reset removes any session variables that are not recognized according to the current verification rules.
+// Reset is called after the backend rejected the SET statement generated from these variables.
+// When the error names the variable it rejected, only that variable is forgotten. Otherwise any
+// session variables that are not recognized according to the current verification rules are removed;
+// user variables are kept, assigning them cannot be the reason of the failure.
 func (s *SessionVariables) Reset(err error) {
+	if name, ok := rejectedVariableName(err); ok {
+		if _, exists := s.variables[name]; exists {
+			s.Delete(name)
+			return
+		}
+	}
 	// Retrieve all current session variables.
 	allVars := s.GetAll()
 	// Iterate through all the variables.
 	for key := range allVars {
+		if strings.HasPrefix(key, "@") {
+			continue
+		}
 		// Check if there is a verification function for the key in the map.
 		if _, ok := variableVerifyFuncMap[key]; !ok {
 			// If the key is not found in the verification function map, delete it from session variables.
@@ -247,6 +260,33 @@ func (s *SessionVariables) Reset(err error) {
 		s.RemoveInvalidSQLMode()
 	}
 
+}
+
+// rejectedVariableName extracts the variable a backend error is about:
+// 1231 "Variable 'x' can't be set to the value of 'y'", 1232 "Incorrect argument type to variable 'x'",
+// 1193 "Unknown system variable 'x'", 1298 "Unknown or incorrect time zone: 'y'".
+func rejectedVariableName(err error) (string, bool) {
+	var sqlErr *SQLError
+	if !errors.As(err, &sqlErr) {
+		return "", false
+	}
+	switch sqlErr.SQLCode() {
+	case ErrUnknownTimeZone:
+		return TimeZone, true
+	case ErrWrongValueForVar, ErrWrongTypeForVar, ErrUnknownSystemVariable:
+		msg := sqlErr.Message
+		i := strings.Index(msg, "ariable '")
+		if i < 0 {
+			return "", false
+		}
+		msg = msg[i+len("ariable '"):]
+		j := strings.IndexByte(msg, '\'')
+		if j <= 0 {
+			return "", false
+		}
+		return formatVariableName(msg[:j]), true
+	}
+	return "", false
 }
 
 func (s *SessionVariables) RemoveInvalidSQLMode() {
